@@ -3,6 +3,7 @@ import ErrModel.Proofs.TextEq
 import ErrModel.Proto
 import ErrModel.ProtoEnc
 import ErrModel.ProtoPay
+import ErrModel.ProtoFull
 /-
   C01 — Error text and cause-tree structure survive network transfer.
 
@@ -164,5 +165,21 @@ theorem C01_wire_payload_partial (p : Pay) (name : Str) (fields : List Proto.Ite
     (hf : Proto.payFields p = some (name, fields)) (hs : Proto.PaySmall p) :
     Proto.desPayNamed name (Proto.serItems fields) = some p :=
   Proto.desPay_serPay p name fields hf hs
+
+
+/-- the details of a layer WITH its payload: type name, mark, safe details and the payload message
+    come back (any modelled payload, any byte strings) -/
+theorem C01_wire_details_with_payload (d : Det) (h : Proto.DetSmallP d) :
+    Proto.detOfBytesP (some (Proto.serDetP d)) = some d :=
+  Proto.detOfBytesP_serDetP d h
+
+/-- the whole message WITH its payloads, when these are the library's flat payload messages: the
+    generated reader gives back the message the generated writer was given, at any depth and with any
+    number of multi-cause branches (stream `fullbytes`: the model's bytes equal gogo's on every such
+    case).  Partial: a nested EncodedError payload is a message of its own (`C01_wire_message_partial`
+    applies to it), a gRPC status payload is not modelled. -/
+theorem C01_wire_full_partial (w : Proto.F) (h : Proto.SmallF w) :
+    Proto.desF (Proto.heightF w) (Proto.serF w) = some w :=
+  Proto.desF_serF w (Proto.heightF w) (Nat.le_refl _) h
 
 end ErrModel
